@@ -5,6 +5,7 @@ package c02
 import (
 	"encoding/json"
 	"fmt"
+	"io"
 	"iter"
 	"sort"
 	"strings"
@@ -28,7 +29,7 @@ type Case struct {
 	IDs      []string     `json:"ids"`
 	Policies []*ir.Policy `json:"policies"`
 	World    gen.World    `json:"world"`
-	Loader   string       `json:"loader"` // document | add | iterator | iterator-dup | nil-entities
+	Loader   string       `json:"loader"`           // document | add | iterator | iterator-dup | nil-entities
 	World2   *gen.World   `json:"world2,omitempty"` // optional second store + request for a second call on the same policies
 	Order    []int        `json:"order,omitempty"`
 	Seps     []string     `json:"seps,omitempty"` // document loader: text before each policy
@@ -49,7 +50,10 @@ func (s sliceIter) All() iter.Seq2[cedar.PolicyID, *cedar.Policy] {
 	}
 }
 
-type pos struct{ File string; Off, Line, Col int }
+type pos struct {
+	File           string
+	Off, Line, Col int
+}
 
 func check(c *Case) (string, string) {
 	n := len(c.Policies)
@@ -58,7 +62,7 @@ func check(c *Case) (string, string) {
 	ids := append([]string(nil), c.IDs...)
 	var iterable cedar.PolicyIterator
 	switch c.Loader {
-	case "document":
+	case "document", "stream":
 		var doc strings.Builder
 		offs := make([]int, n)
 		for i, p := range c.Policies {
@@ -71,15 +75,44 @@ func check(c *Case) (string, string) {
 			doc.WriteString(render.Policy(p, render.Opts{}))
 		}
 		text := doc.String()
-		ps, err := cedar.NewPolicySetFromBytes("doc.cedar", []byte(text))
-		if err != nil {
-			return "document/parse", fmt.Sprintf("generated document does not parse: %v\n%s", err, text)
-		}
 		ids = make([]string, n)
+		fname := "doc.cedar"
+		if c.Loader == "stream" {
+			fname = ""
+		}
 		for i := range c.Policies {
 			ids[i] = fmt.Sprintf("policy%d", i)
 			l, col := render.PositionAt(text, offs[i])
-			wantPos[ids[i]] = pos{"doc.cedar", offs[i], l, col}
+			wantPos[ids[i]] = pos{fname, offs[i], l, col}
+		}
+		if c.Loader == "stream" {
+			// the streaming decoder: every statement is decoded before any of them is used
+			d := cedar.NewDecoder(strings.NewReader(text))
+			got := make([]*cedar.Policy, 0, n)
+			for {
+				p := new(cedar.Policy)
+				err := d.Decode(p)
+				if err == io.EOF {
+					break
+				}
+				if err != nil {
+					return "stream/parse", fmt.Sprintf("generated document does not decode as a stream: %v\n%s", err, text)
+				}
+				got = append(got, p)
+			}
+			if len(got) != n {
+				return "stream/count", fmt.Sprintf("stream decoder produced %d policies for %d statements\n%s", len(got), n, text)
+			}
+			ps := cedar.NewPolicySet()
+			for i, p := range got {
+				ps.Add(cedar.PolicyID(ids[i]), p)
+			}
+			iterable = ps
+			break
+		}
+		ps, err := cedar.NewPolicySetFromBytes("doc.cedar", []byte(text))
+		if err != nil {
+			return "document/parse", fmt.Sprintf("generated document does not parse: %v\n%s", err, text)
 		}
 		iterable = ps
 	case "add", "nil-entities":
@@ -406,7 +439,7 @@ func TestDecisionTable(t *testing.T) {
 		if len(sel) == 0 {
 			cell = append(cell, "cell:empty-set")
 		}
-		for _, loader := range []string{"document", "add", "iterator", "iterator-dup"} {
+		for _, loader := range []string{"document", "stream", "add", "iterator", "iterator-dup"} {
 			cc := c
 			cc.Loader = loader
 			if loader == "add" {
@@ -415,7 +448,7 @@ func TestDecisionTable(t *testing.T) {
 					cc.Order = append(cc.Order, i)
 				}
 			}
-			if loader == "document" {
+			if loader == "document" || loader == "stream" {
 				for j := range sel {
 					cc.Seps = append(cc.Seps, []string{"\n", "// é comment\n  ", "\n\n\t", " "}[(idx+j)%4])
 				}
@@ -424,7 +457,7 @@ func TestDecisionTable(t *testing.T) {
 		}
 	})
 	if ev.First() {
-		ev.R.Space(fmt.Sprintf("multisets of <= %d of the 14 policy kinds (effect x outcome) x 4 loaders", maxSize), total*4)
+		ev.R.Space(fmt.Sprintf("multisets of <= %d of the 14 policy kinds (effect x outcome) x 5 loaders", maxSize), total*5)
 	}
 }
 
@@ -473,7 +506,7 @@ func genCase(rt *rapid.T) *Case {
 		}
 		c.World2 = &w2
 	}
-	c.Loader = rapid.SampledFrom([]string{"document", "add", "iterator", "iterator-dup", "nil-entities"}).Draw(rt, "loader")
+	c.Loader = rapid.SampledFrom([]string{"document", "stream", "add", "iterator", "iterator-dup", "nil-entities"}).Draw(rt, "loader")
 	if c.Loader == "add" || c.Loader == "nil-entities" {
 		idx := make([]int, n)
 		for i := range idx {
@@ -481,7 +514,7 @@ func genCase(rt *rapid.T) *Case {
 		}
 		c.Order = rapid.Permutation(idx).Draw(rt, "order")
 	}
-	if c.Loader == "document" {
+	if c.Loader == "document" || c.Loader == "stream" {
 		for i := 0; i < n; i++ {
 			c.Seps = append(c.Seps, rapid.SampledFrom([]string{"\n", " ", "\r\n", "// x\n", "\n// é日本\n\t", "\n\n\n"}).Draw(rt, "sep"))
 		}
@@ -531,7 +564,7 @@ func TestRandomSets(t *testing.T) {
 	ev.SetChecks(ev.Scale(4000, 400000))
 	rapid.Check(t, func(rt *rapid.T) {
 		c := genCase(rt)
-		if c.Loader == "document" && !documentable(c) {
+		if (c.Loader == "document" || c.Loader == "stream") && !documentable(c) {
 			c.Loader = "add"
 			c.Order = nil
 		}
